@@ -33,6 +33,9 @@ pub struct Crafted {
     pub mutations: Vec<Mutation>,
     /// explicit invalid payloads for the codec clause of C14
     pub invalid: Option<Invalid>,
+    /// the frame is sent this many times back to back (0 and 1 both mean once)
+    #[serde(default)]
+    pub repeat: usize,
 }
 
 #[derive(Clone, Copy, Debug, Serialize, Deserialize, PartialEq)]
@@ -129,14 +132,18 @@ pub fn gen_script(rng: &mut Rng, c14_only: bool) -> HostileScript {
         .map(|_| {
             if c14_only || rng.chance(1, 5) {
                 if rng.chance(1, 2) {
-                    Crafted { msgs: vec![], batched: false, mutations: vec![], invalid: Some(Invalid::ForCodec) }
+                    Crafted { msgs: vec![], batched: false, mutations: vec![], invalid: Some(Invalid::ForCodec) , repeat: 1 }
                 } else {
-                    Crafted { msgs: vec![(rng.usize(0, 60), rng.next())], batched: false, mutations: vec![], invalid: None }
+                    Crafted { msgs: vec![(rng.usize(0, 60), rng.next())], batched: false, mutations: vec![], invalid: None , repeat: 1 }
                 }
             } else {
                 let batched = role == TargetRole::Subscriber && rng.chance(1, 2);
                 let k = if batched { rng.usize(0, 4) } else { 1 };
-                Crafted { msgs: (0..k).map(|_| (rng.usize(0, 200), rng.next())).collect(), batched, mutations: gen_mutations(rng), invalid: None }
+                // long runs of well-formed frames that carry nothing (empty batches), ready all at once
+                if batched && k == 0 && rng.chance(1, 2) {
+                    return Crafted { msgs: vec![], batched: true, mutations: vec![], invalid: None, repeat: *rng.pick(&[100usize, 5_000, 40_000]) };
+                }
+                Crafted { msgs: (0..k).map(|_| (rng.usize(0, 200), rng.next())).collect(), batched, mutations: gen_mutations(rng), invalid: None , repeat: 1 }
             }
         })
         .collect();
@@ -251,6 +258,11 @@ async fn scenario(world: Rc<World>, sc: HostileScript) -> AResult<HostileReport>
                         let (frame, invalid, valid) = craft(sc.codec, sc.comp, c);
                         if !c.batched {
                             rep.expectations.push((invalid, valid));
+                        }
+                        // repeated frames are fed without flushing in between, so that the consumer
+                        // finds them all ready at once
+                        for _ in 1..c.repeat.max(1) {
+                            stream.feed(frame.clone()).await.map_err(|e| anyhow!("raw feed: {e}"))?;
                         }
                         stream.send(frame).await.map_err(|e| anyhow!("raw send: {e}"))?;
                     }
@@ -492,6 +504,10 @@ impl Family for HostileFamily {
             }
         }
         out.into_iter().map(|s| serde_json::to_value(s).unwrap()).collect()
+    }
+    fn stack_bytes(&self) -> usize {
+        // the victim is a consuming client: what a tokio worker thread gets
+        2 << 20
     }
     fn watchdog_ms(&self) -> u64 {
         120_000
